@@ -1,0 +1,7 @@
+//go:build !verif
+
+package plonk
+
+import "github.com/consensys/gnark-crypto/ecc/bw6-633/fr"
+
+func verifBlinding(_, _, _, _ []fr.Element) {}
